@@ -717,12 +717,15 @@ func (obj *SparseFloat32VectorJointIterator) Index() int {
   return obj.idx
 }
 func (obj *SparseFloat32VectorJointIterator) Ok() bool {
-  return !(obj.s1.ptr == nil || obj.s1.GetFloat32() == float32(0)) ||
-         !(obj.s2 == nil || obj.s2.GetFloat32() == float32(0))
+  return obj.idx != -1
 }
 func (obj *SparseFloat32VectorJointIterator) Next() {
   ok1 := obj.it1.Ok()
   ok2 := obj.it2.Ok()
+  if !ok1 && !ok2 {
+    // all iterators are exhausted
+    obj.idx = -1
+  }
   obj.s1.ptr = nil
   obj.s2 = nil
   if ok1 {
@@ -795,14 +798,16 @@ func (obj *SparseFloat32VectorJoint3Iterator) Index() int {
   return obj.idx
 }
 func (obj *SparseFloat32VectorJoint3Iterator) Ok() bool {
-  return !(obj.s1.ptr == nil || obj.s1.GetFloat32() == float32(0)) ||
-         !(obj.s2 == nil || obj.s2.GetFloat32() == float32(0)) ||
-         !(obj.s3 == nil || obj.s3.GetFloat32() == float32(0))
+  return obj.idx != -1
 }
 func (obj *SparseFloat32VectorJoint3Iterator) Next() {
   ok1 := obj.it1.Ok()
   ok2 := obj.it2.Ok()
   ok3 := obj.it3.Ok()
+  if !ok1 && !ok2 && !ok3 {
+    // all iterators are exhausted
+    obj.idx = -1
+  }
   obj.s1.ptr = nil
   obj.s2 = nil
   obj.s3 = nil
